@@ -42,6 +42,16 @@ pub struct Init {
 pub enum Case {
     Explore { init: Init },
     History { init: Init, switches: Vec<u8> },
+    /// a float curve with MANY nodes (tag names with two digits, long node maps) taken through 1, 2, 1, 0, 2
+    ManyNodes {
+        rule: u8,
+        n: usize,
+        ctor: u8,
+        reversed_supply: bool,
+        /// 0 uneven spacing, 1 evenly spaced weekly, 2 weekly with interior nodes moved off the grid
+        #[serde(default)]
+        grid: u8,
+    },
 }
 
 #[derive(Clone)]
@@ -319,6 +329,41 @@ fn examine(cx: &Ctxm, obj: &Obj, tags: &Tags, order: u8) -> Option<(String, Stri
     None
 }
 
+fn cmp_dual_local(x: &Dual, rd: &RefDual, local: &[String]) -> Result<(), String> {
+    let g = x.gradient1(local.to_vec());
+    for k in 0..2 {
+        if !scaled_close(g[k], rd.val.g[k], 1e-10, rd.mag.g[k]) {
+            return Err(format!("d/d{} = {:e} != {:e}", local[k], g[k], rd.val.g[k]));
+        }
+    }
+    for v in x.vars().iter() {
+        if !local.contains(v) {
+            return Err(format!("carries {:?}, a node outside the interval", v));
+        }
+    }
+    Ok(())
+}
+fn cmp_dual2_local(x: &Dual2, rd: &RefDual, local: &[String]) -> Result<(), String> {
+    let g = x.gradient1(local.to_vec());
+    let h = x.gradient2(local.to_vec());
+    for k in 0..2 {
+        if !scaled_close(g[k], rd.val.g[k], 1e-10, rd.mag.g[k]) {
+            return Err(format!("d/d{} = {:e} != {:e}", local[k], g[k], rd.val.g[k]));
+        }
+        for l in 0..2 {
+            if !scaled_close(h[[k, l]], rd.val.h[k][l], 1e-9, rd.mag.h[k][l]) {
+                return Err(format!("d2/d{}d{} = {:e} != {:e}", local[k], local[l], h[[k, l]], rd.val.h[k][l]));
+            }
+        }
+    }
+    for v in x.vars().iter() {
+        if !local.contains(v) {
+            return Err(format!("carries {:?}, a node outside the interval", v));
+        }
+    }
+    Ok(())
+}
+
 fn next_tags(tags: &Tags, from: u8, to: u8) -> Tags {
     if to == 0 {
         tags.iter().map(|_| None).collect()
@@ -425,6 +470,86 @@ pub fn check(case: &Case, idx: u64, acc: &mut Acc) {
                 acc.sample(|| json!({"init": init, "states": states, "transitions": tr, "max_depth": checker.max_depth(), "example_history": [1, 2, 1, 0, 2]}));
             }
         }
+        Case::ManyNodes { rule, n, ctor, reversed_supply, grid } => {
+            let rule_u = *rule as usize;
+            let xs = grid_times(*n, *grid, 5);
+            let ys: Vec<f64> = (0..*n).map(|k| VSETS[0][k % 6] * (1.0 - 0.003 * k as f64)).collect();
+            let order: Vec<usize> = if *reversed_supply { (0..*n).rev().collect() } else { (0..*n).collect() };
+            let cal = Cal::new(vec![], vec![5, 6]);
+            let mut obj = if *ctor == 0 {
+                let nodes = Nodes::F64(order.iter().map(|k| (ts_to_ndt(xs[*k]), ys[*k])).collect());
+                match rule_u {
+                    0 => Obj::Lin(CurveDF::try_new(nodes, LinearInterpolator::new(), ID, Convention::Act360, Modifier::ModF, Some(100.0), cal).unwrap()),
+                    1 => Obj::Log(CurveDF::try_new(nodes, LogLinearInterpolator::new(), ID, Convention::Act360, Modifier::ModF, Some(100.0), cal).unwrap()),
+                    2 => Obj::Lzr(CurveDF::try_new(nodes, LinearZeroRateInterpolator::new(), ID, Convention::Act360, Modifier::ModF, Some(100.0), cal).unwrap()),
+                    3 => Obj::Ff(CurveDF::try_new(nodes, FlatForwardInterpolator::new(), ID, Convention::Act360, Modifier::ModF, Some(100.0), cal).unwrap()),
+                    _ => Obj::Fb(CurveDF::try_new(nodes, FlatBackwardInterpolator::new(), ID, Convention::Act360, Modifier::ModF, Some(100.0), cal).unwrap()),
+                }
+            } else {
+                let m: IndexMap<NaiveDateTime, Number> = order.iter().map(|k| (ts_to_ndt(xs[*k]), Number::F64(ys[*k]))).collect();
+                Obj::Py(VerifCurve::new(m, interp_of(rule_u), ADOrder::Zero, ID, Convention::Act360, Modifier::ModF, CalType::Cal(cal), Some(100.0)).unwrap())
+            };
+            let qs = queries(&xs);
+            let vals0: Vec<f64> = qs.iter().map(|q| f64::from(obj.get(&ts_to_ndt(*q)))).collect();
+            let all_names: Vec<String> = (0..*n).map(|k| format!("{}{}", ID, k)).collect();
+            acc.nontrivial();
+            for o in [1u8, 2, 1, 0, 2] {
+                acc.eval();
+                if !obj.set_ad_order(adorder(o)) || obj.ad() != o {
+                    acc.violate("many-nodes/set_ad_order", idx, serde_json::to_value(case).unwrap(), json!(o), json!(obj.ad()));
+                    return;
+                }
+                // node tags in date order
+                for (k, (d, v)) in obj.nodes().iter().enumerate() {
+                    let ok = d.and_utc().timestamp() == xs[k]
+                        && match (v, o) {
+                            (Number::F64(f), 0) => f.to_bits() == ys[k].to_bits(),
+                            (Number::Dual(x), 1) => x.real().to_bits() == ys[k].to_bits() && x.vars().iter().cloned().collect::<Vec<_>>() == vec![all_names[k].clone()] && x.dual().to_vec() == vec![1.0],
+                            (Number::Dual2(x), 2) => x.real().to_bits() == ys[k].to_bits() && x.vars().iter().cloned().collect::<Vec<_>>() == vec![all_names[k].clone()] && x.dual().to_vec() == vec![1.0] && x.dual2().iter().all(|z| *z == 0.0),
+                            _ => false,
+                        };
+                    if !ok {
+                        acc.violate("many-nodes/node-tag", idx, serde_json::to_value(case).unwrap(), json!({"node": k, "order": o, "want_name": all_names[k]}), json!(format!("{} {:?}", d, v)));
+                        return;
+                    }
+                }
+                for (qi, q) in qs.iter().enumerate() {
+                    acc.eval();
+                    let got = obj.get(&ts_to_ndt(*q));
+                    let i = interval_of(&xs, *q);
+                    let local = vec![all_names[i].clone(), all_names[i + 1].clone()];
+                    let rd = closed_form::<RefDual>(rule_u, xs[0], xs[i], &RefDual::leaf(ys[i], &[(0, 1.0)]), xs[i + 1], &RefDual::leaf(ys[i + 1], &[(1, 1.0)]), *q);
+                    let others: Vec<String> = all_names.iter().enumerate().filter(|(k, _)| *k != i && *k != i + 1).map(|(_, s)| s.clone()).collect();
+                    let res: Result<(), String> = if !close_scaled(f64::from(&got), vals0[qi], 1e-14, vals0[qi].abs()) {
+                        Err(format!("value {:e} vs float curve {:e}", f64::from(&got), vals0[qi]))
+                    } else {
+                        match (&got, o) {
+                            (Number::F64(_), 0) => Ok(()),
+                            (Number::Dual(x), 1) => {
+                                if x.gradient1(others.clone()).iter().any(|z| *z != 0.0) {
+                                    Err("non-zero sensitivity to a node outside the interval".into())
+                                } else {
+                                    cmp_dual_local(x, &rd, &local)
+                                }
+                            }
+                            (Number::Dual2(x), 2) => {
+                                if x.gradient1(others.clone()).iter().any(|z| *z != 0.0) {
+                                    Err("non-zero sensitivity to a node outside the interval".into())
+                                } else {
+                                    cmp_dual2_local(x, &rd, &local)
+                                }
+                            }
+                            _ => Err(format!("kind of {:?} does not match order {}", got, o)),
+                        }
+                    };
+                    if let Err(e) = res {
+                        acc.violate(&format!("many-nodes/look-up/{}/order{}", RULES[rule_u], o), idx, serde_json::to_value(case).unwrap(), json!({"query_ts": q, "interval": i}), json!(e));
+                        return;
+                    }
+                }
+            }
+            acc.sample(|| serde_json::to_value(case).unwrap());
+        }
         Case::History { init, switches } => {
             let (cx, mut st) = context(init);
             if let Some((k, m)) = &st.bad {
@@ -478,6 +603,18 @@ pub fn cases(tier: Tier) -> Vec<Case> {
             }
         }
     }
+    for n in [9usize, 10, 11, 12, 16, 17, 24, 33, 101, 112, 130, 210] {
+        for rule in 0..5u8 {
+            for ctor in 0..2u8 {
+                for (rev, grid) in [(false, 0u8), (true, 0), (false, 1), (true, 2), (false, 3), (true, 4)] {
+                    if n > 40 && (rule % 2 == 1) != (ctor == 1) {
+                        continue;
+                    }
+                    out.push(Case::ManyNodes { rule, n, ctor, reversed_supply: rev, grid });
+                }
+            }
+        }
+    }
     out
 }
 
@@ -487,7 +624,7 @@ pub fn run(ctx: &Ctx, replay_file: Option<String>) -> ! {
     }
     let cs = cases(ctx.tier);
     let acc = explore(&cs, check);
-    let nexp = cs.len() as u64;
+    let nexp = cs.iter().filter(|c| matches!(c, Case::Explore { .. })).count() as u64;
     let fix = acc.breakdown.get("fixpoints reached").copied().unwrap_or(0);
     let mut meta = Meta::exploration(
         "explicit-state breadth-first search (stateright) over the REAL curve object (CurveDF with each typed \
@@ -502,7 +639,8 @@ pub fn run(ctx: &Ctx, replay_file: Option<String>) -> ! {
          look-up (all query dates of C11) equals the float curve's value to 1e-14 and has gradient and Hessian, read \
          back by name, equal to the RefDual derivatives of the rule's closed form w.r.t. the two node values used and \
          exactly zero for every other node; index_value = base / value as a number of the curve's order, 0 before the \
-         first node, Err without a base.",
+         first node, Err without a base. In addition float curves of 9, 10, 11, 12, 16, 17, 24, 33, 101, 112, 130, 210 nodes (two- and three-digit tag \
+         names; uneven, evenly spaced, and evenly spaced with displaced interior nodes) are taken through the switch sequence 1, 2, 1, 0, 2 with the same checks on every node and look-up.",
         json!({"initial_states": nexp, "fixpoints_reached": fix}),
     );
     meta.level = "model_checking";
